@@ -2,7 +2,7 @@
 import itertools
 import json
 
-from core.rng import patched
+from core.rng import SemanticRandom, installed, patched
 from core.runner import Prop
 from . import cover_common as cc
 
@@ -53,17 +53,21 @@ class C09(Prop):
             state["ec"] = EC
             return orig(self_, C, EC, ord_, r, indexes)
 
-        def fake_choice(seq):
-            seq = list(seq)
-            v = seq[case["choices"][state["k"] % len(case["choices"])] % len(seq)]
-            state["k"] += 1
-            state["cands"].append(len(seq))
-            return v
-        with patched(mod.EECC, "compute_scores", wrapped), patched(mod, "choice", fake_choice):
+        class R(SemanticRandom):
+            """tie breaks: one uniform choice among the candidates each, from the case's cyclic script"""
+
+            def on_uniform(self, n, ctx):
+                v = case["choices"][state["k"] % len(case["choices"])] % n
+                state["k"] += 1
+                state["cands"].append(n)
+                return v
+        sem = R()
+        with patched(mod.EECC, "compute_scores", wrapped), installed(sem):
             cover = G.get_EECC()
         return {"cover": sorted([sorted(c) for c in cover], key=lambda c: (-len(c), c)), "raw_cover": [list(c) for c in cover],
                 "has_edges_after": G.has_edges(), "picks": state["picks"], "lmc0": lmc0, "n_choice_calls": state["k"],
-                "candidate_set_sizes": state["cands"], "nodes": cc.nodes_of(case["edges"])}
+                "candidate_set_sizes": state["cands"], "nodes": cc.nodes_of(case["edges"]),
+                "rng_unexpected": sem.summary()["n_unexpected"]}
 
     def request(self, case, obs):
         if len(cc.nodes_of(case["edges"])) > 12:
